@@ -47,8 +47,7 @@ func (c *Connect) Pack(w io.Writer) error {
 
 	bufw := getBuffer()
 	defer putBuffer(bufw)
-	bufw.Write([]byte{0x00, 0x04})
-	bufw.Write(c.ProtocolName)
+	writeBinary(bufw, c.ProtocolName)
 	bufw.WriteByte(c.ProtocolLevel)
 	// write flag
 	var (
